@@ -92,6 +92,25 @@ func runPrefix(w *World, name string) {
 			w.Step(pt.Action{Op: "inc", R: 0, P: 1})
 		}
 		syncAll()
+	case "tomb": // shared content with tombstones on every replica: a removed key, a deleted element between two live ones,
+		// a deleted nested container and an array with a hole
+		switch w.P.Type {
+		case "map":
+			w.Step(pt.Action{Op: "put", R: 0, K: "a", V: "p"})
+			w.Step(pt.Action{Op: "rem", R: 0, K: "a"})
+		case "list":
+			w.Step(pt.Action{Op: "ins", R: 0, P: 0, N: 3, V: "p"})
+			w.Step(pt.Action{Op: "del1", R: 0, P: 1})
+		case "doc":
+			w.Step(pt.Action{Op: "dput", R: 0, K: "a", V: "a"})
+			w.Step(pt.Action{Op: "dins", R: 0, T: "a", P: 1, N: 1, V: "p"})
+			w.Step(pt.Action{Op: "darrdel1", R: 0, T: "a", P: 1})
+			w.Step(pt.Action{Op: "dput", R: 0, K: "b", V: "o"})
+			w.Step(pt.Action{Op: "ddel", R: 0, K: "b"})
+		default:
+			w.Step(pt.Action{Op: "inc", R: 0, P: 1})
+		}
+		syncAll()
 	case "skew": // the last replica is three operations ahead and has pushed them; nobody has pulled yet: a later pull
 		// delivers a batch of several writers in which a lower clock value follows higher ones
 		l := len(w.reps) - 1
